@@ -210,6 +210,25 @@ TWINS = [
     ('C16', 'commonpath-idiom', (R, STATIC, "        if location != self.docroot and not location.startswith(self.docroot.rstrip(os.sep) + os.sep):",
                                  "        if os.path.commonpath([self.docroot, location]) != self.docroot:"), None),
     ('C17', 'ge-form', (R, WEBSOCKET, "            if len(data) < 2:\n                self._buffer = data\n                break", "            if not len(data) >= 2:\n                self._buffer = data\n                break"), None),
+    ('C03', 'acquire-release', (R, EVENTS, "        with self._lock:\n            if time_left >= 0 and (self._time_left < 0 or self._time_left > time_left):\n                self._time_left = time_left\n                if self._time_left == 0 and self.handler is not None:\n                    m = getattr(\n                        getattr(\n                            self.handler,\n                            'im_self',\n                            self.handler.__self__,\n                        ),\n                        'resume',\n                        None,\n                    )\n                    if m is not None and ismethod(m):\n                        m()",
+                               "        self._lock.acquire()\n        try:\n            if time_left >= 0 and (self._time_left < 0 or self._time_left > time_left):\n                self._time_left = time_left\n                if self._time_left == 0 and self.handler is not None:\n                    m = getattr(\n                        getattr(\n                            self.handler,\n                            'im_self',\n                            self.handler.__self__,\n                        ),\n                        'resume',\n                        None,\n                    )\n                    if m is not None and ismethod(m):\n                        m()\n        finally:\n            self._lock.release()"), None),
+    ('C04', 'bare-except', (R, MANAGER, "            except BaseException:\n                value = err = _exc_info()", "            except:  # noqa: E722\n                value = err = _exc_info()"), None),
+    ('C06', 'removal-guard-flipped', (R, MANAGER, "                if state.timeout >= 0:\n                    self.removeHandler(state.tick_handler, 'generate_events')",
+                                      "                if not state.timeout < 0:\n                    self.removeHandler(state.tick_handler, 'generate_events')"), None),
+    ('C09', 'expiry-flipped', (R, TIMERS, "        if now >= self.expiry:", "        if self.expiry <= now:"), None),
+    ('C10', 'mask-compare', (R, POLLERS, "        if mask:\n            self._poller.register(fd, mask)\n            self._map[fileno] = fd\n        else:\n            super().discard(fd)\n            with contextlib.suppress(KeyError):",
+                             "        if mask != 0:\n            self._poller.register(fd, mask)\n            self._map[fileno] = fd\n        else:\n            super().discard(fd)\n            with contextlib.suppress(KeyError):"), None),
+    ('C11', 'partial-flipped', (R, SOCKETS, "            if nbytes < len(data):\n                self._buffers[sock].appendleft(data[nbytes:])", "            if len(data) > nbytes:\n                self._buffers[sock].appendleft(data[nbytes:])"), None),
+    ('C12', 'closeq-suppress', (R, SOCKETS, "        if sock in self._closeq:\n            self._closeq.remove(sock)\n\n        if sock in self._clients:", "        with contextlib.suppress(ValueError):\n            self._closeq.remove(sock)\n\n        if sock in self._clients:"), None),
+    ('C13', 'idx-minus-one', (R, PARSER, "                idx = data.find(b'\\r\\n')\n                if idx < 0:\n                    self._buf = [data]", "                idx = data.find(b'\\r\\n')\n                if idx == -1:\n                    self._buf = [data]"), None),
+    ('C14', 'disconnect-pop', (R, HTTP, "        if sock in self._clients:\n            del self._clients[sock]\n        if sock in self._buffers:\n            del self._buffers[sock]\n\n    @handler('read')", "        self._clients.pop(sock, None)\n        self._buffers.pop(sock, None)\n\n    @handler('read')"), None),
+    ('C15', 'head-nested', (R, HTTP, "        if req.method == 'HEAD':\n            # no body; but the exchange is over like for any other response\n            if res.close:\n                self.fire(close(sock))\n            if sock in self._clients:\n                del self._clients[sock]\n            res.done = True\n            return\n        if res.stream and res.body:",
+                            "        if req.method == 'HEAD':\n            # no body; but the exchange is over like for any other response\n            if res.close:\n                self.fire(close(sock))\n            if sock in self._clients:\n                del self._clients[sock]\n            res.done = True\n        elif res.stream and res.body:"), None),
+    ('C17', 'decoder-gt', (R, WEBSOCKET, "            if payload_length >= 126:", "            if payload_length > 125:"), None),
+    ('C18', 'check-order', (R, 'circuits/protocols/irc/message.py', "        self.args = [arg if isinstance(arg, str) else arg.decode(self.encoding) for arg in args if arg is not None]\n        self._check_args()", "        self.args = [arg if isinstance(arg, str) else arg.decode(self.encoding) for arg in args if arg is not None]\n\n        self._check_args()"), None),
+    ('C19', 'firewall-positive', (R, NODE_PROTOCOL, "        if self.__receive_event_firewall and not self.__receive_event_firewall(event, self.__sock):\n            self.send_result(id, Value(event, self))\n        else:",
+                                  "        if self.__receive_event_firewall and not self.__receive_event_firewall(event, self.__sock):\n            self.send_result(id, Value(event, self))\n            return\n        if True:"), None),
+    ('C20', 'session-positive-form', (R, SESSIONS, "    if user != who(request):\n        return create_session(request)\n\n    return sid", "    if user == who(request):\n        return sid\n\n    return create_session(request)"), None),
     ('C20', 'nested-none-test', (R, TOOLS, "        if password is not None and _httpauth.checkResponse(\n            ah, password, method=request.method, encrypt=encrypt, realm=realm\n        ):\n            request.login = ah['username']\n            return True",
                                  "        if password is not None:\n            if _httpauth.checkResponse(ah, password, method=request.method, encrypt=encrypt, realm=realm):\n                request.login = ah['username']\n                return True"), None),
 ]
